@@ -11,7 +11,7 @@ and in API mode functions / globals / constants of the included libs reached
 through the including lib (writes seen on both sides).  An icontract
 postcondition on Parser.include monitors the sharing of the model objects.
 """
-import os, sys, random
+import os, sys, random, re
 from vlib import core, modbuild, gen_cdef as GC
 
 RULE = ("case = one include graph of 2..4 FFIs (chain k<-k+1, diamond, fan) x mode (in-line, "
@@ -27,8 +27,11 @@ ASSUMPTIONS = ["the flat FFI (same cdefs, no include) is the reference for layou
                "API modules are built by gcc from the generator's matching C source; a later "
                "module's source repeats the type declarations of the included ones (the usual "
                "#include)",
-               "enumerator / constant values are those the generator wrote (evaluation is C09/C10)"]
+               "enumerator / constant values are those the generator wrote (evaluation is C09/C10)",
+               "sanitizer reports while decoding / realizing module tables are recorded as "
+               "observations (the statement does not speak about them)"]
 TIMEOUT = 1500
+SAN_DECIDES = False
 KINDS = ['typedef', 'typedef', 'agg', 'agg', 'enum', 'const', 'const', 'func', 'func', 'glob']
 DEPS = os.path.join(core.VERIF, '.deps')
 
@@ -48,7 +51,9 @@ def tag_of(d):
     return d['name']
 
 
-def make_graph(seed):
+def make_graph(seed, mode='inline'):
+    """API graphs have no bitfields: API mode cannot realize a struct with a bitfield inside an
+    anonymous union at all (with or without include), which is not this property's subject"""
     rnd = random.Random(seed)
     n = rnd.choice([2, 2, 3, 3, 4])
     topo = rnd.choice(['chain', 'chain', 'diamond', 'fan']) if n >= 3 else 'chain'
@@ -65,7 +70,8 @@ def make_graph(seed):
         for j in nd.includes:
             vis |= {j} | nodes[j].vis
         nd.vis = vis
-        c = nd.c = GC.Ctx(rnd, prefix='c%d%s_' % (seed % 1000000, 'abcd'[k]), nd=0)
+        c = nd.c = GC.Ctx(rnd, prefix='c%d%s_' % (seed % 1000000, 'abcd'[k]), nd=0,
+                           bitfields=mode != 'api')
         for j in sorted(vis):            # earlier names are candidates for every type choice
             o = nodes[j].c
             c.typedefs += [d for d in o.items if d['kind'] == 'typedef']
@@ -145,7 +151,7 @@ def modname(seed, k, mode):
 
 
 def api_specs(seed, d):
-    nodes, _ = make_graph(seed)
+    nodes, _ = make_graph(seed, 'api')
     return [{'name': modname(seed, k, 'api'), 'kind': 'api', 'cdef': nd.text,
              'source': c_source(nodes, k), 'dir': d,
              'includes': [modname(seed, j, 'api') for j in nd.includes],
@@ -181,7 +187,7 @@ def build_api(ctx, seeds):
 
 def generate(ctx):
     rng = ctx.rng('gen')
-    n_light = ctx.scale(120, 3000)
+    n_light = ctx.scale(60, 3000)
     n_api = ctx.scale(3, 100)
     cases = []
     per = 10
@@ -256,7 +262,7 @@ def child_setup(setup, wd):
 
 
 def shape(ffi, t, depth=0):
-    """structural description of a ctype, without display names of aggregates"""
+    """structural description of a ctype: no display names of aggregates, no constructor flags"""
     k = t.kind
     if k in ('struct', 'union'):
         if t.fields is None:
@@ -264,7 +270,7 @@ def shape(ffi, t, depth=0):
         if depth > 8:
             return (k, ffi.sizeof(t))
         return (k, ffi.sizeof(t), ffi.alignof(t),
-                [(n, f.offset, f.bitshift, f.bitsize, f.flags, shape(ffi, f.type, depth + 1))
+                [(n, f.offset, f.bitshift, f.bitsize, shape(ffi, f.type, depth + 1))
                  for n, f in t.fields])
     if k == 'enum':
         return (k, ffi.sizeof(t), sorted(t.elements.items()), int(ffi.cast(t, -1)) < 0)
@@ -276,32 +282,55 @@ def shape(ffi, t, depth=0):
     return (k, t.cname)
 
 
-def reaches_enum(t, depth=0):
+def reaches_enum(t):
     k = t.kind
     if k == 'enum':
         return True
     if k in ('pointer', 'array'):
-        return reaches_enum(t.item, depth + 1)
+        return reaches_enum(t.item)
     if k == 'function':
-        return reaches_enum(t.result, depth + 1) or any(reaches_enum(a, depth + 1) for a in t.args)
+        return reaches_enum(t.result) or any(reaches_enum(a) for a in t.args)
     return False
 
 
+class Anon(object):
+    """classifier input: which declarations reach an aggregate with an anonymous struct/union
+    member, and which FFIs declare one (their parsers number them $1, $2.. independently)"""
+
+    def __init__(self, nodes):
+        self.nodes = nodes
+        self.text = {d['name']: d['text'] for nd in nodes for d in nd.c.items
+                     if d['kind'] in ('agg', 'typedef')}
+        self.declaring = {k for k, nd in enumerate(nodes)
+                          if any(d['kind'] == 'agg' and '  {' in d['text'] for d in nd.c.items)}
+
+    def reach(self, name, seen=None):
+        seen = seen if seen is not None else set()
+        if name in seen or name not in self.text:
+            return False
+        seen.add(name)
+        t = self.text[name]
+        return '  {' in t or any(self.reach(w, seen) for w in set(re.findall(r'c\d+[abcd]_\w+', t)))
+
+    def collide(self, name, k):
+        """`name`, asked through FFI k, reaches anonymous members, and at least two FFIs whose
+        tables are involved declare anonymous members"""
+        return len(({k} | self.nodes[k].vis) & self.declaring) >= 2 and self.reach(name)
+
+
 def build_ffis(st, nodes, seed, mode, dirs):
-    """-> (ffis, libs); libs[k] is None where the mode has no lib for constants"""
+    """-> (ffis, libs)"""
     import importlib
     from cffi import FFI
     if mode == 'api':
         sys.path.insert(0, dirs)
         try:
-            # import the last one only: it must pull in everything it includes
-            mods = [None] * len(nodes)
-            mods[-1] = importlib.import_module(modname(seed, len(nodes) - 1, mode))
-            for k in range(len(nodes) - 1):
-                mods[k] = importlib.import_module(modname(seed, k, mode))
+            # the last one first: importing it must pull in everything it includes
+            order = [len(nodes) - 1] + list(range(len(nodes) - 1))
+            mods = {k: importlib.import_module(modname(seed, k, mode)) for k in order}
         finally:
             sys.path.remove(dirs)
-        return [m.ffi for m in mods], [m.lib for m in mods]
+        return [mods[k].ffi for k in range(len(nodes))], [mods[k].lib for k in range(len(nodes))]
     ffis = []
     for k, nd in enumerate(nodes):
         f = FFI()
@@ -324,13 +353,18 @@ def build_ffis(st, nodes, seed, mode, dirs):
 
 def child_case(st, case):
     rep = core.ChildRep()
-    for i, seed in enumerate(case['seeds']):
-        try:
-            run_graph(st, rep, seed, case['mode'], case['dirs'][i] if case['mode'] == 'api' else None)
-        except Exception as e:
-            import traceback
-            rep.bad('harness-error', 'graph seed %d (%s): %s' % (seed, case['mode'],
-                                                                 traceback.format_exc()[-1200:]), seed)
+    out, sys.stdout = sys.stdout, open(os.devnull, 'w')      # emit_python_code chatter
+    try:
+        for i, seed in enumerate(case['seeds']):
+            try:
+                run_graph(st, rep, seed, case['mode'],
+                          case['dirs'][i] if case['mode'] == 'api' else None)
+            except Exception:
+                import traceback
+                rep.bad('harness-error', 'graph seed %d (%s): %s' %
+                        (seed, case['mode'], traceback.format_exc()[-1200:]), seed)
+    finally:
+        sys.stdout = out
     rep.stat('contract_evaluations_' + st['contract'], NCONTRACT[0])
     NCONTRACT[0] = 0
     return rep.result()
@@ -338,12 +372,19 @@ def child_case(st, case):
 
 def run_graph(st, rep, seed, mode, dirs):
     from cffi import FFI
-    nodes, topo = make_graph(seed)
+    nodes, topo = make_graph(seed, mode)
+    anon = Anon(nodes)
     rnd = random.Random(seed ^ 0x34)
     where = ' :: graph seed %d, mode %s, %s of %d' % (seed, mode, topo, len(nodes))
 
     def bad(mech, msg):
         rep.bad('%s:%s' % (mech, mode), msg + where, seed)
+
+    def agg_bad(what, name, k, msg):
+        """wrong / unusable aggregate: classified by the anonymous-member name collision"""
+        if mode != 'inline' and anon.collide(name, k):
+            what = 'aggregate-wrong-or-unusable:anonymous-member-names-collide'
+        bad(what, msg)
     try:
         ffis, libs = build_ffis(st, nodes, seed, mode, dirs)
     except IncludeCopied as e:
@@ -356,6 +397,14 @@ def run_graph(st, rep, seed, mode, dirs):
         flat.cdef(nd.text)
     rep.stat('graphs_%s' % mode)
     rep.stat('topology_%s' % topo)
+
+    def flat_compare(kname, d, k, tk, through):
+        rep.stat('layout_vs_flat_%s' % mode)
+        tag = tag_of(d)
+        sk, sf = shape(ffis[k], tk), shape(flat, flat.typeof(tag))
+        if sk != sf:
+            agg_bad('%s-layout-differs-from-flat' % kname, d['name'], k,
+                    '%s %s FFI %d: %r, flat FFI without include: %r' % (tag, through, k, sk, sf))
 
     for k, nd in enumerate(nodes):
         fk = ffis[k]
@@ -378,9 +427,7 @@ def run_graph(st, rep, seed, mode, dirs):
                             tk = fk.typeof(tag)
                         rep.stat('identity_%s_%s' % (kname, mode))
                         if tk is not tj:
-                            what = kname if not (kind == 'typedef' and reaches_enum(tj)) \
-                                else 'typedef-over-enum'
-                            bad('%s-not-shared' % what,
+                            bad('not-shared:%s' % ('reaches-enum' if reaches_enum(tj) else kname),
                                 '%r: FFI %d (includes %r) gives a different ctype object than the '
                                 'declaring FFI %d: %r (id %#x) vs %r (id %#x), equal=%r; %s' %
                                 (d['text'][:200], k, nd.includes, j, tk, id(tk), tj, id(tj),
@@ -388,14 +435,9 @@ def run_graph(st, rep, seed, mode, dirs):
                         elif kind != 'typedef':
                             rep.stat('identity_derived_pointer_%s' % mode)
                             if fk.typeof(tag + ' *') is not fj.typeof(tag + ' *'):
-                                bad('derived-pointer-not-shared', '%s *: different ctype objects' % tag)
+                                bad('not-shared:derived-pointer', '%s *: different ctype objects' % tag)
                         if kind != 'typedef' or tk.kind in ('struct', 'union', 'array', 'pointer'):
-                            rep.stat('layout_vs_flat_%s' % mode)
-                            sk, sf = shape(fk, tk), shape(flat, flat.typeof(tag))
-                            if sk != sf:
-                                bad('%s-layout-differs-from-flat' % kname,
-                                    '%s seen through FFI %d: %r, flat FFI without include: %r' %
-                                    (tag, k, sk, sf))
+                            flat_compare(kname, d, k, tk, 'seen through')
                     elif kind == 'const':
                         check_const(rep, bad, mode, fk, libs[k], d['name'], d['value'], d['form'],
                                     (k, d['text']))
@@ -403,10 +445,10 @@ def run_graph(st, rep, seed, mode, dirs):
                         for en, v in d['values']:
                             check_const(rep, bad, mode, fk, libs[k], en, v, 'enumerator', (k, en))
                     if mode == 'api' and kind in ('func', 'glob'):
-                        check_lib(rep, bad, rnd, nodes[j].c, d, fk, libs[k], fj, libs[j], k, j)
+                        check_lib(rep, bad, rnd, nodes[j].c, d, fk, libs[k], fj, libs[j], k)
                 except Exception as e:
-                    bad('%s-through-includer-raised:%s' % (kname, type(e).__name__),
-                        '%r of FFI %d asked through FFI %d: %s' % (d['text'][:200], j, k, e))
+                    agg_bad('%s-through-includer-raised:%s' % (kname, type(e).__name__), d['name'], k,
+                            '%r of FFI %d asked through FFI %d: %s' % (d['text'][:200], j, k, e))
         # this node's own declarations that name earlier ones
         for own, field, how, j, tag in nd.uses:
             try:
@@ -419,39 +461,46 @@ def run_graph(st, rep, seed, mode, dirs):
                     t = t.item
                 want = ffis[j].typeof(tag)
                 if t is not want:
-                    bad('use-of-included-type-not-shared%s' % ('-enum' if reaches_enum(want) else ''),
+                    bad('not-shared:%s' % ('reaches-enum' if reaches_enum(want) else 'use-in-includer'),
                         '%s%s in FFI %d is declared with %s of FFI %d but its ctype %r (id %#x) is '
                         'not that FFI\'s %r (id %#x)' % (own, '.' + field if field else '', k, tag, j,
                                                         t, id(t), want, id(want)))
             except Exception as e:
-                bad('use-raised:' + type(e).__name__, '%s.%s of FFI %d: %s' % (own, field, k, e))
+                agg_bad('use-raised:' + type(e).__name__, own, k,
+                        '%s.%s of FFI %d: %s' % (own, field, k, e))
         for own, kn, kv in nd.lengths:
             rep.case((mode, 'len', nd.text, own))
             rep.stat('array_lengths_from_included_constants_%s' % mode)
+            form = 'enumerator' if '_E' in kn else 'define'
             try:
-                if fk.sizeof(own) != kv or (mode != 'inline' and fk.sizeof('char[%s]' % kn) != kv):
-                    bad('array-length-from-included-constant', 'typedef char %s[%s]: sizeof %r, constant '
-                        'is %r' % (own, kn, fk.sizeof(own), kv))
+                if fk.sizeof(own) != kv:
+                    bad('array-length-from-included-constant', 'typedef char %s[%s]: sizeof %r, '
+                        'constant is %r' % (own, kn, fk.sizeof(own), kv))
             except Exception as e:
                 bad('array-length-raised:' + type(e).__name__, '%s[%s] in FFI %d: %s' % (own, kn, k, e))
+            try:
+                rep.stat('type_strings_with_included_%s_%s' % (form, mode))
+                got = fk.sizeof('char[%s]' % kn)
+            except Exception as e:
+                got = '%s: %s' % (type(e).__name__, ' '.join(str(e).split()))
+            if got != kv:
+                bad('included-constant-not-usable-in-type-string:' + form,
+                    'sizeof("char[%s]") through FFI %d: %s; the constant is %r and '
+                    'integer_const()/lib attribute give it' % (kn, k, got, kv))
         # own aggregates (they embed included types): layout against the flat FFI
         for d in nd.c.items:
             if d['kind'] == 'agg' and nd.vis:
-                rep.stat('own_layout_vs_flat_%s' % mode)
                 try:
-                    sk, sf = shape(fk, fk.typeof(tag_of(d))), shape(flat, flat.typeof(tag_of(d)))
-                    if sk != sf:
-                        bad('includer-aggregate-layout-differs-from-flat', '%s of FFI %d: %r, flat: %r'
-                            % (tag_of(d), k, sk, sf))
+                    flat_compare('includer-aggregate', d, k, fk.typeof(tag_of(d)), 'declared by including')
                 except Exception as e:
-                    bad('includer-aggregate-raised:' + type(e).__name__, '%s: %s' % (d['text'][:200], e))
+                    agg_bad('includer-aggregate-raised:' + type(e).__name__, d['name'], k,
+                            '%s: %s' % (d['text'][:200], e))
         # list_types() of an including FFI covers what it includes
         if nd.vis:
             rep.stat('list_types_%s' % mode)
             lt = fk.list_types()
             for j in nd.vis:
-                lj = ffis[j].list_types()
-                missing = [sorted(set(a) - set(b)) for a, b in zip(lj, lt)]
+                missing = [sorted(set(a) - set(b)) for a, b in zip(ffis[j].list_types(), lt)]
                 if any(missing):
                     bad('list_types-misses-included', 'FFI %d list_types() lacks %r of FFI %d' %
                         (k, missing, j))
@@ -480,7 +529,7 @@ def check_const(rep, bad, mode, fk, libk, name, value, form, key):
             % (name, value, got))
 
 
-def check_lib(rep, bad, rnd, c, d, fk, libk, fj, libj, k, j):
+def check_lib(rep, bad, rnd, c, d, fk, libk, fj, libj, k):
     """API mode: function / global of lib j reached through lib k"""
     name = d['name']
     rep.case(('api', 'lib', k, d['text']))
@@ -512,10 +561,9 @@ def check_lib(rep, bad, rnd, c, d, fk, libk, fj, libj, k, j):
         bad('global-address-differs', '%s: %#x in its lib, %#x through lib %d' % (name, p1, p2, k))
     if isinstance(g1, fj.CData) != isinstance(g2, fk.CData):
         return bad('global-value-kind-differs', '%s: %r vs %r' % (name, g1, g2))
-    if isinstance(g1, fj.CData):
-        if fj.typeof(g1) is not fk.typeof(g2):
-            bad('global-type-not-shared%s' % ('-enum' if reaches_enum(fj.typeof(g1)) else ''),
-                '%s: %r in its lib, %r through lib %d' % (name, g1, g2, k))
+    if isinstance(g1, fj.CData) and fj.typeof(g1) is not fk.typeof(g2):
+        bad('not-shared:%s' % ('reaches-enum' if reaches_enum(fj.typeof(g1)) else 'global-type'),
+            '%s: %r in its lib, %r through lib %d' % (name, g1, g2, k))
     r = c.resolve(d['type'])
     if r['k'] == 'prim':
         if g1 != g2 and g1 == g1:
